@@ -17,6 +17,7 @@ Seqs(S, n) == [1..n -> S]
 
 \* lattice trajectories for RPE: axis-aligned integer steps, attitudes from a small set
 StepsV == {<<1, 0, 0>>, <<0, 2, 0>>, <<0, 0, 0>>}
+StepsP == {<<3, 0, 0>>, <<0, 4, 0>>, <<0, 0, 0>>}        \* Pythagorean: non-collinear pairs of steps still have an integer straight-line distance (5)
 RotSteps == {1, 7}
 MkTraj(steps, rots) == LET F[k \in 1..(Len(steps) + 1)] == IF k = 1 THEN Pose(1, <<0, 0, 0>>)
                                                             ELSE Pose(RMul(F[k - 1].r, rots[k - 1]), VAdd(F[k - 1].p, steps[k - 1])) IN
@@ -30,11 +31,14 @@ Init == /\ pc = "call" /\ o = [out |-> "none"]
              [] Which = "apeN" -> \E rel \in APERels, n \in 0..3, m \in 1..3 :
                                      \E rf \in Seqs({Pose(1, <<0, 0, 0>>), Pose(7, <<1, 2, 2>>)}, n), es \in Seqs({Pose(12, <<3, 4, 0>>), Pose(1, <<0, 0, 0>>)}, m) :
                                         c = [fam |-> "ape", rel |-> rel, ref |-> rf, est |-> es]
-             [] Which = "rpe" -> \E n \in RpeN : \E s1 \in Seqs(StepsV, n - 1), s2 \in Seqs({<<1, 0, 0>>, <<0, 4, 0>>}, n - 1), r1 \in Seqs(RotSteps, n - 1),
+             [] Which = "rpe" -> \E n \in RpeN : \E s1 \in Seqs(IF Light THEN StepsP ELSE StepsV \cup StepsP, n - 1),
+                                       s2 \in Seqs(IF Light THEN {<<1, 0, 0>>, <<0, 4, 0>>} ELSE {<<1, 0, 0>>, <<0, 4, 0>>, <<3, 0, 0>>}, n - 1),
+                                       r1 \in Seqs(IF Light THEN {1} ELSE RotSteps, n - 1),
                                        rel \in (IF Light THEN {"trans", "ratio"} ELSE Relations), fr \in BOOLEAN, all \in BOOLEAN,
-                                       q \in (IF Light THEN {<<"meters", 2>>, <<"meters", 1>>} ELSE {<<"frames", 1>>, <<"frames", 2>>, <<"meters", 2>>, <<"degrees", 90>>}) :
+                                       q \in (IF Light THEN {<<"meters", 3>>, <<"meters", 4>>} ELSE {<<"frames", 1>>, <<"frames", 2>>, <<"meters", 2>>, <<"degrees", 90>>}) :
                                     LET ref == MkTraj(s1, r1)  est == MkTraj(s2, [k \in 1..(n - 1) |-> IF k = 1 THEN 12 ELSE 1]) IN
                                     \* the point-distance relations compare straight-line distances: keep them on the integer lattice
+                                    /\ (~Light /\ rel \notin {"pdist", "ratio"} => \A k \in 1..(n - 1) : s1[k] \in StepsV /\ s2[k] # <<3, 0, 0>>)
                                     /\ (rel \in {"pdist", "ratio"} => \A i, j \in 1..n : ISqrt(Dist2(ref[i].p, ref[j].p)) >= 0 /\ ISqrt(Dist2(est[i].p, est[j].p)) >= 0)
                                     /\ c = [fam |-> "rpe", rel |-> rel, ref |-> ref, est |-> est, fromref |-> fr,
                                          q |-> [unit |-> q[1], d |-> q[2], all |-> all, tn |-> IF all THEN 1 ELSE 0, td |-> IF all THEN 2 ELSE 1],
